@@ -24,27 +24,38 @@ fn vk_any_op() -> BooleanOperator {
 }
 
 /// Reference semantics: Or = any operand, And = every operand, Not = no operand; top level = Or.
-fn vk_ref_eval<const L: usize>(n: &[VkNode; L], start: usize, end: usize, op: BooleanOperator, active: &[bool; 3]) -> bool {
-    let mut i = start;
-    let mut any = false;
-    let mut all = true;
-    while i < end {
-        let v;
+/// Non-recursive: sub-expression values are computed from the last opcode backwards, so every operand
+/// of an operator is already known when the operator is reached.
+fn vk_ref_eval<const L: usize>(n: &[VkNode; L], _start: usize, _end: usize, _op: BooleanOperator, active: &[bool; 3]) -> bool {
+    let mut val = [false; L];
+    let mut i = L;
+    while i > 0 {
+        i -= 1;
         if n[i].is_op {
-            v = vk_ref_eval(n, i + 1, n[i].end, n[i].op, active);
-            i = n[i].end;
+            let mut any = false;
+            let mut all = true;
+            let mut j = i + 1;
+            while j < n[i].end {
+                any |= val[j];
+                all &= val[j];
+                j = if n[j].is_op { n[j].end } else { j + 1 };
+            }
+            val[i] = match n[i].op {
+                Or => any,
+                And => all,
+                Not => !any,
+            };
         } else {
-            v = active[n[i].key as usize];
-            i += 1;
+            val[i] = active[n[i].key as usize];
         }
-        any |= v;
-        all &= v;
     }
-    match op {
-        Or => any,
-        And => all,
-        Not => !any,
+    let mut any = false;
+    let mut j = 0;
+    while j < L {
+        any |= val[j];
+        j = if n[j].is_op { n[j].end } else { j + 1 };
     }
+    any
 }
 
 /// A symbolic well-formed expression of exactly L opcodes built through the public constructors:
@@ -80,7 +91,7 @@ fn vk_any_expr<const L: usize>() -> ([VkNode; L], [OpCode; L]) {
     (n, ops)
 }
 
-fn vk_c10_eval<const L: usize>() {
+fn vk_c10_eval<const L: usize>() -> (bool, [VkNode; L]) {
     let (n, ops) = vk_any_expr::<L>();
     let active: [bool; 3] = [kani::any(), kani::any(), kani::any()];
     // the active key list handed to the evaluator: the three keys that are down, others replaced by an unrelated key
@@ -100,9 +111,21 @@ fn vk_c10_eval<const L: usize>() {
     );
     let want = vk_ref_eval(&n, 0, L, Or, &active);
     assert!(got == want, "the case fires iff its written condition is true");
+    (got, n)
+}
+
+// @harness name=c10_k1_eval_l3 prop=C10,C02 tier=quick timeout=1500
+// @encodes evaluate_boolean, OpCode::opcode_type, OperatorAndEndIndex::from, OpCode::new_bool, OpCode::new_key
+// @bounds every well-formed expression of exactly 3 opcodes (any mix of and/or/not and key leaves over 3 keys, any nesting) and every truth assignment to the 3 keys
+// @assumes well-formedness: each operator has >= 1 operand and its range nests inside its parents' (what parse_switch_case_bool emits)
+// @spec evaluate_boolean == recursive reference (or = any, and = all, not = none, top level = or); no panic
+#[kani::proof]
+#[kani::unwind(7)]
+fn c10_k1_eval_l3() {
+    let (got, n) = vk_c10_eval::<3>();
     kani::cover!(got && n[0].is_op && n[0].op == Not, "a true not(...)");
-    kani::cover!(!got && n[0].is_op && n[0].op == And && n[0].end == L, "a false and(...)");
-    kani::cover!(n[0].is_op && n[1].is_op && n[0].end == L && n[1].end < L, "nested operator followed by a sibling");
+    kani::cover!(!got && n[0].is_op && n[0].op == And && n[0].end == 3, "a false and(...)");
+    kani::cover!(n[0].is_op && n[1].is_op, "nested operator");
 }
 
 // @harness name=c10_k1_eval_l4 prop=C10,C02 tier=quick timeout=1500
@@ -111,9 +134,12 @@ fn vk_c10_eval<const L: usize>() {
 // @assumes well-formedness: each operator has >= 1 operand and its range nests inside its parents' (what parse_switch_case_bool emits)
 // @spec evaluate_boolean == recursive reference (or = any, and = all, not = none, top level = or); no panic (operator stack depth <= 8)
 #[kani::proof]
-#[kani::unwind(10)]
+#[kani::unwind(9)]
 fn c10_k1_eval_l4() {
-    vk_c10_eval::<4>();
+    let (got, n) = vk_c10_eval::<4>();
+    kani::cover!(got && n[0].is_op && n[0].op == Not, "a true not(...)");
+    kani::cover!(!got && n[0].is_op && n[0].op == And && n[0].end == 4, "a false and(...)");
+    kani::cover!(n[0].is_op && n[1].is_op && n[0].end == 4 && n[1].end < 4, "nested operator followed by a sibling");
 }
 
 // @harness name=c10_k1_eval_l5 prop=C10 tier=quick timeout=2400
@@ -124,7 +150,10 @@ fn c10_k1_eval_l4() {
 #[kani::proof]
 #[kani::unwind(12)]
 fn c10_k1_eval_l5() {
-    vk_c10_eval::<5>();
+    let (got, n) = vk_c10_eval::<5>();
+    kani::cover!(got && n[0].is_op && n[0].op == Not, "a true not(...)");
+    kani::cover!(!got && n[0].is_op && n[0].op == And && n[0].end == 5, "a false and(...)");
+    kani::cover!(n[0].is_op && n[1].is_op && n[0].end == 5 && n[1].end < 5, "nested operator followed by a sibling");
 }
 
 // @harness name=c10_k1_eval_l6 prop=C10 tier=thorough timeout=5400
@@ -135,7 +164,10 @@ fn c10_k1_eval_l5() {
 #[kani::proof]
 #[kani::unwind(14)]
 fn c10_k1_eval_l6() {
-    vk_c10_eval::<6>();
+    let (got, n) = vk_c10_eval::<6>();
+    kani::cover!(got && n[0].is_op && n[0].op == Not, "a true not(...)");
+    kani::cover!(!got && n[0].is_op && n[0].op == And && n[0].end == 6, "a false and(...)");
+    kani::cover!(n[0].is_op && n[1].is_op && n[0].end == 6 && n[1].end < 6, "nested operator followed by a sibling");
 }
 
 // @harness name=c10_k1_eval_l7 prop=C10 tier=thorough timeout=7200
@@ -146,7 +178,10 @@ fn c10_k1_eval_l6() {
 #[kani::proof]
 #[kani::unwind(16)]
 fn c10_k1_eval_l7() {
-    vk_c10_eval::<7>();
+    let (got, n) = vk_c10_eval::<7>();
+    kani::cover!(got && n[0].is_op && n[0].op == Not, "a true not(...)");
+    kani::cover!(!got && n[0].is_op && n[0].op == And && n[0].end == 7, "a false and(...)");
+    kani::cover!(n[0].is_op && n[1].is_op && n[0].end == 7 && n[1].end < 7, "nested operator followed by a sibling");
 }
 
 // @harness name=c10_k1_depth8 prop=C10,C02 tier=quick timeout=1500
@@ -368,9 +403,9 @@ static VK_SW_A0: Action<'static, u8> = Action::KeyCode(KeyCode::Kb0);
 static VK_SW_A1: Action<'static, u8> = Action::KeyCode(KeyCode::Kb1);
 static VK_SW_A2: Action<'static, u8> = Action::KeyCode(KeyCode::Kb2);
 
-// @harness name=c10_k3_cases prop=C10 tier=quick timeout=1500
+// @harness name=c10_k3_cases prop=C10 tier=thorough timeout=5400
 // @encodes Switch::actions, SwitchActions::next
-// @bounds 3 cases, each guarded by one symbolic key leaf (3 keys) or the empty condition, symbolic break/fallthrough per case, every truth assignment
+// @bounds 3 cases: two guarded by one symbolic key leaf (3 keys), the last with the empty (always true) condition; symbolic break/fallthrough per case; every truth assignment to the keys
 // @assumes none
 // @spec the iterator yields exactly the cases whose condition is true, top to bottom, and nothing after the first firing case marked break; then None forever
 #[kani::proof]
@@ -382,17 +417,17 @@ fn c10_k3_cases() {
         if active[1] { KeyCode::B } else { KeyCode::Z },
         if active[2] { KeyCode::C } else { KeyCode::Z },
     ];
-    let k: [u8; 3] = [kani::any(), kani::any(), kani::any()];
-    kani::assume(k[0] < 4 && k[1] < 4 && k[2] < 4); // 3 = empty condition (always true)
-    let e0 = [OpCode::new_key(VK_KEYS[(k[0] % 3) as usize])];
-    let e1 = [OpCode::new_key(VK_KEYS[(k[1] % 3) as usize])];
-    let e2 = [OpCode::new_key(VK_KEYS[(k[2] % 3) as usize])];
+    let k0: u8 = kani::any();
+    let k1: u8 = kani::any();
+    kani::assume(k0 < 3 && k1 < 3);
+    let e0 = [OpCode::new_key(VK_KEYS[k0 as usize])];
+    let e1 = [OpCode::new_key(VK_KEYS[k1 as usize])];
+    let e2: [OpCode; 0] = [];
     let brk: [bool; 3] = [kani::any(), kani::any(), kani::any()];
-    let bf = |b: bool| if b { Break } else { Fallthrough };
     let cases: [Case<'_, u8>; 3] = [
-        (if k[0] == 3 { &e0[..0] } else { &e0[..] }, &VK_SW_A0, bf(brk[0])),
-        (if k[1] == 3 { &e1[..0] } else { &e1[..] }, &VK_SW_A1, bf(brk[1])),
-        (if k[2] == 3 { &e2[..0] } else { &e2[..] }, &VK_SW_A2, bf(brk[2])),
+        (&e0, &VK_SW_A0, if brk[0] { Break } else { Fallthrough }),
+        (&e1, &VK_SW_A1, if brk[1] { Break } else { Fallthrough }),
+        (&e2, &VK_SW_A2, if brk[2] { Break } else { Fallthrough }),
     ];
     let sw = Switch { cases: &cases };
     let mut it = sw.actions(
@@ -403,27 +438,34 @@ fn c10_k3_cases() {
         [].iter().copied(),
         0,
     );
-    let acts: [&Action<'static, u8>; 3] = [&VK_SW_A0, &VK_SW_A1, &VK_SW_A2];
+    let got = [it.next(), it.next(), it.next(), it.next()];
+    // reference
+    let fires = [active[k0 as usize], active[k1 as usize], true];
+    let acts: [&Action<'_, u8>; 3] = [&VK_SW_A0, &VK_SW_A1, &VK_SW_A2];
+    let mut want: [Option<&Action<'_, u8>>; 4] = [None; 4];
+    let mut nw = 0;
     let mut stopped = false;
-    let mut yielded = 0;
     let mut i = 0;
     while i < 3 {
-        let fires = !stopped && (k[i] == 3 || active[k[i] as usize]);
-        if fires {
-            match it.next() {
-                Some(a) => assert!(core::ptr::eq(a, acts[i]), "firing cases come out top to bottom"),
-                None => assert!(false, "a firing case was skipped"),
-            }
-            yielded += 1;
+        if !stopped && fires[i] {
+            want[nw] = Some(acts[i]);
+            nw += 1;
             if brk[i] {
                 stopped = true;
             }
         }
         i += 1;
     }
-    assert!(it.next().is_none(), "nothing fires after a break / beyond the last case");
-    assert!(it.next().is_none());
-    kani::cover!(yielded == 3, "all three fall through");
-    kani::cover!(yielded == 1 && stopped && !brk[2], "break hides a later true case");
-    kani::cover!(yielded == 0, "no case fires");
+    i = 0;
+    while i < 4 {
+        match (got[i], want[i]) {
+            (Some(g), Some(w)) => assert!(core::ptr::eq(g, w), "firing cases come out top to bottom"),
+            (None, None) => {}
+            _ => assert!(false, "a case fired that should not, or a firing case was skipped"),
+        }
+        i += 1;
+    }
+    kani::cover!(nw == 3, "all three fall through");
+    kani::cover!(nw == 1 && stopped, "break hides the always-true last case");
+    kani::cover!(nw == 2 && !fires[0], "first case skipped");
 }
